@@ -228,6 +228,7 @@ func runC18(c *hx.Ctx) *hx.Outcome {
 						q.Add(msgWithID(id))
 						ret := tick()
 						s.Logf("%s return Add(%d) @%d", name, id, ret)
+						rt.Progress()
 						ops = append(ops, porcupine.Operation{ClientId: ci, Input: qIn{add: true, id: id}, Call: call, Output: qOut{}, Return: ret})
 					} else {
 						call := tick()
@@ -237,6 +238,7 @@ func runC18(c *hx.Ctx) *hx.Outcome {
 						kept = append(kept, keptSnap{snap, got})
 						ret := tick()
 						s.Logf("%s return Get %v @%d", name, got, ret)
+						rt.Progress()
 						ops = append(ops, porcupine.Operation{ClientId: ci, Input: qIn{}, Call: call, Output: qOut{ids: got}, Return: ret})
 					}
 					rt.Yield("client returned")
